@@ -18,6 +18,8 @@
                    `contents_first_ignores_filter`) as `ExactDomF`, but `contents_first` (with
                    `min_depth = 0`) may be combined with `dirs()` / `files()`; for `files()` with the side
                    condition `FlagsOkFor snap o`: no snapshot entry carries both kind flags;
+  * `ExactDomF3 o` (after BOTH repairs, also `contents_first_min_depth_order`): `follow = true ∧ OrdOk o ∧
+                   KindOk o` — no restriction on `contents_first` or the depth window, no side condition;
   * `fuelNeed snap o rootE ≤ f`  the fuel of the model: `fuelNeed` = 3 · (number of entries the
                    walk visits, computed by `sizeF`) + 1.  The real iterator has no fuel; `.hang` of
                    the model with `travFuel` is an artifact where the walk is larger than
@@ -29,7 +31,7 @@ import Rivia.Lemmas.WalkCF
 namespace Rivia.Props
 open Rivia Rivia.Memfs Rivia.Spec
 open Rivia.Lemmas.WalkF (DomF fuelNeed stepCons specOutcome)
-open Rivia.Lemmas.WalkCF (ExactDomF2 FlagsExcl FlagsOkFor)
+open Rivia.Lemmas.WalkCF (ExactDomF2 ExactDomF3 FlagsExcl FlagsOkFor)
 
 /-- the model run to exhaustion with the given fuel: yielded entries (in order), final outcome -/
 def modelRun (snap : Snap) (o : Opts) (rootE : Entry) (fuel : Nat) : List Entry × Outcome Unit :=
@@ -283,6 +285,82 @@ theorem C08F_witness_contents_first_filter :
     entriesSpecF snapS { follow := true, contentsFirst := true, files := true } rootS = ([], none) ∧
     fuelNeed snapS { follow := true, contentsFirst := true, dirs := true } rootS ≤ 12 := by decide
 
+/-! ### c''. the same on `ExactDomF3` (after both repairs): every option combination with `OrdOk` and
+  `KindOk` — `contents_first` with any depth window and kind filter — no side condition -/
+
+theorem C08F_exactDomF2_sub (o : Opts) (hdom : ExactDomF2 o) : ExactDomF3 o := Lemmas.WalkCF.ExactDomF2.to3 hdom
+
+/-- Central theorem, final form: links followed, every option combination of `ExactDomF3` -/
+theorem C08F_exact3 (snap : Snap) (o : Opts) (rootE : Entry) (f : Nat)
+    (hwf : SnapWf snap) (hroot : InSnap snap rootE) (hdom : ExactDomF3 o)
+    (hf : fuelNeed snap o rootE ≤ f) :
+    modelRun snap o rootE f = specRun snap o rootE := by
+  have h := Lemmas.WalkCF.runIter_exact3 hwf hdom.1 hdom.2.1 hdom.2.2 hroot f hf
+  simp [modelRun, specRun, h]
+
+theorem C08F_collectEntries3 (snap : Snap) (o : Opts) (rootE : Entry)
+    (hwf : SnapWf snap) (hroot : InSnap snap rootE) (hdom : ExactDomF3 o)
+    (hfuel : fuelNeed snap o rootE ≤ travFuel snap) :
+    collectEntries snap o rootE =
+      match entriesSpecF snap o rootE with
+      | (ys, none) => .ok ys
+      | (_, some k) => .err k :=
+  Lemmas.WalkCF.collectEntries_exactF3 hwf hdom.1 hdom.2.1 hdom.2.2 hroot hfuel
+
+theorem C08F_entries_op3 (env : Env) (p : Str) (r : TravReq) (s : State) (k : FsPath) (rootE : Entry)
+    (snap : Snap) (habs : absM env p s = (.ok k, s)) (hent : entriesOf s k = .ok (rootE, snap))
+    (hwf : SnapWf snap) (hroot : InSnap snap rootE) (hdom : ExactDomF3 r.opts)
+    (hfuel : fuelNeed snap r.opts rootE ≤ travFuel snap) :
+    step env s (.entries p r) =
+      (.ok (.trav ((entriesSpecF snap r.opts rootE).1.map (·.path)) (entriesSpecF snap r.opts rootE).2), s) :=
+  Lemmas.WalkCF.travM_exact3 habs hent hwf hroot hdom.1 hdom.2.1 hdom.2.2 hfuel
+
+/-- ... ends either normally or with `LinkLooping` / `DoesNotExist`, every option combination -/
+theorem C08F_outcomes3 (snap : Snap) (o : Opts) (rootE : Entry) (f : Nat)
+    (hwf : SnapWf snap) (hroot : InSnap snap rootE) (hdom : ExactDomF3 o)
+    (hf : fuelNeed snap o rootE ≤ f) :
+    (modelRun snap o rootE f).2 = .ok () ∨ (modelRun snap o rootE f).2 = .err .linkLooping ∨
+      (modelRun snap o rootE f).2 = .err .doesNotExist := by
+  rw [C08F_exact3 snap o rootE f hwf hroot hdom hf]
+  simp only [specRun]
+  cases h : (entriesSpecF snap o rootE).2 with
+  | none => exact Or.inl rfl
+  | some k =>
+    rcases C08F_spec_errors snap o rootE k h with rfl | rfl
+    · exact Or.inr (Or.inl rfl)
+    · exact Or.inr (Or.inr rfl)
+
+/-- nothing a filter or the depth window rejects is yielded, every option combination -/
+theorem C08F_filter_respected3 (snap : Snap) (o : Opts) (rootE : Entry) (f : Nat)
+    (hwf : SnapWf snap) (hroot : InSnap snap rootE) (hdom : ExactDomF3 o)
+    (hf : fuelNeed snap o rootE ≤ f) :
+    ∀ y ∈ (modelRun snap o rootE f).1,
+      (y = present o rootE ∨ ∃ p n raw, alLookup (p ++ [n]) snap = some raw ∧ y = present o raw) ∧
+      (o.files = true → y.file = true) ∧ (o.dirs = true → y.dir = true) ∧
+      ∃ dy, o.minDepth ≤ dy ∧ (dy = 0 ∨ dy ≤ o.maxDepth) := by
+  rw [C08F_exact3 snap o rootE f hwf hroot hdom hf]
+  intro y hy
+  obtain ⟨h1, dy, _, h3, h4⟩ := Lemmas.WalkF.mem_walkF o _ _ _ _ y hy
+  simp only [selected, Bool.and_eq_true, decide_eq_true_eq, Bool.or_eq_true, Bool.not_eq_true'] at h4
+  refine ⟨h1, ?_, ?_, dy, h4.1.1, h3⟩
+  · intro hfl; rcases h4.1.2 with h | h
+    · rw [hfl] at h; cases h
+    · exact h
+  · intro hdl; rcases h4.2 with h | h
+    · rw [hdl] at h; cases h
+    · exact h
+
+/-- the former `min_depth` finding with links followed, on a witness (`/t/`, `/t/a/`, `/t/l -> /t/a`):
+    `min_depth(1).contents_first().follow(true)`; model and spec evaluated independently -/
+theorem C08F_witness_contents_first_min_depth :
+    ExactDomF3 { follow := true, contentsFirst := true, minDepth := 1 } ∧
+    ¬ ExactDomF2 { follow := true, contentsFirst := true, minDepth := 1 } ∧
+    modelRun snapS { follow := true, contentsFirst := true, minDepth := 1 } rootS 12 =
+      ([dirS, linkS.doFollow true], .ok ()) ∧
+    entriesSpecF snapS { follow := true, contentsFirst := true, minDepth := 1 } rootS =
+      ([dirS, linkS.doFollow true], none) ∧
+    fuelNeed snapS { follow := true, contentsFirst := true, minDepth := 1 } rootS ≤ 12 := by decide
+
 /-- non-vacuity: the hypotheses hold of concrete snapshots with a link loop / a link to a sibling;
     both option domains are inhabited -/
 example : SnapWf snapL ∧ InSnap snapL rootL ∧ SnapWf snapS ∧ InSnap snapS rootS ∧
@@ -329,11 +407,9 @@ theorem C08F_witness_model :
   --   The real iterator has no fuel: it terminates after 2^k steps (resource blow-up, not a hang).
   -- * a closed-form decidable condition on the snapshot implying `fuelNeed ≤ travFuel`
   --   (e.g. a bound on the number of directory links): not proved; `fuelNeed` itself is computable.
-  -- * what is yielded for the option combinations outside `ExactDomF2` (`contents_first` with
-  --   `min_depth > 0`), where the output differs from the walk already without links
-  --   (C08 b., finding `contents_first_min_depth_order`, not repaired): only termination is proved
-  --   (`C08F_terminates_all_options`); and nothing for grouping flags without `sort_by_name`
-  --   (outside `OrdOk`; the builder never produces it).
+  -- * outside `ExactDomF3` (both kind flags at once; grouping flags without `sort_by_name` — no
+  --   builder call sequence produces either): with `OrdOk` termination is proved
+  --   (`C08F_terminates_all_options`), nothing without it.
   -- * the consumers with a `pre_op` / failing `step` (`chmodM`, `copyM`): not covered (`noPre`,
   --   collecting consumer only).
 -/
